@@ -2,7 +2,9 @@ package main
 
 import (
 	"bytes"
+	"encoding/binary"
 	"fmt"
+	"math"
 	"math/rand"
 	"net"
 	"sync"
@@ -48,7 +50,18 @@ func engineMsgWire(rng *rand.Rand, n int, tier string, o *Out) {
 		service := fmt.Sprintf("svc%d", rng.Intn(10))
 		csum := byte(pick(rng, 0, 1, 3))
 		maxPayload := pick(rng, 65519, 65519, 1000, 100)
-		verdict := wireExchange(res1, service, method, arg2, arg3, resArg2, resArg3, csum, maxPayload)
+		verdict, cw := wireExchange(res1, service, method, arg2, arg3, resArg2, resArg3, csum, maxPayload)
+		if cw != nil && verdict == "" {
+			// callwire: the frames of the call req as the real reqResWriter emitted them vs the model
+			// of reqResWriter (Model/CallWire.v call_frames); for a call req that is its own only
+			// fragment additionally vs the complete-payload encoder written from the protocol
+			// document (flags ttl tracing service~1 headers csumtype csum arg1~2 arg2~2 arg3~2).
+			in, obs, ok := cw.modelCase(method, arg2, arg3)
+			if ok {
+				o.Hist(fmt.Sprintf("callwire frames=%d", len(cw.frames)))
+				o.Case("callwire", fmt.Sprintf("cw%d", c), in, obs, true, cw.specVerdict(method, arg2, arg3))
+			}
+		}
 		o.Hist(fmt.Sprintf("res1=%#x", res1))
 		o.Hist(fmt.Sprintf("arg3len=%d", len(arg3)))
 		if c < 2 {
@@ -58,13 +71,75 @@ func engineMsgWire(rng *rand.Rand, n int, tier string, o *Out) {
 	}
 }
 
-func wireExchange(res1 byte, service, method string, arg2, arg3, resArg2, resArg3 []byte, csum byte, maxPayload int) string {
+// callWire is what the raw peer saw of one call req: the frames as received and the fields
+// of the first fragment parsed per the protocol document.
+type callWire struct {
+	id     uint32
+	first  *rawCall
+	frames [][]byte
+}
+
+// modelCase: input of run_callwire (mt id kind ttl span service headers a1 a2 a3) and the
+// implementation's frames in the model's output encoding.  Span ids above MaxInt64 cannot
+// travel as int64; such a case is skipped.
+func (cw *callWire) modelCase(method string, arg2, arg3 []byte) (in, obs []int64, ok bool) {
+	tr := cw.first.Tracing
+	if len(tr) != 25 {
+		return nil, nil, false
+	}
+	in = []int64{3, int64(cw.id), int64(cw.first.CsumType), int64(cw.first.TTL)}
+	for i := 0; i < 3; i++ {
+		v := binary.BigEndian.Uint64(tr[8*i:])
+		if v > math.MaxInt64 {
+			return nil, nil, false
+		}
+		in = append(in, int64(v))
+	}
+	in = append(in, int64(tr[24]))
+	in = putBytes(in, []byte(cw.first.Service))
+	in = putKVs(in, cw.first.Headers)
+	in = putBytes(in, []byte(method))
+	in = putBytes(in, arg2)
+	in = putBytes(in, arg3)
+	obs = []int64{0, int64(len(cw.frames))}
+	for _, f := range cw.frames {
+		obs = putBytes(obs, f)
+	}
+	return in, obs, true
+}
+
+// specVerdict: statement-level oracle for an unfragmented call req -- the payload must be
+// byte-for-byte what an encoder written from the protocol document produces.
+func (cw *callWire) specVerdict(method string, arg2, arg3 []byte) string {
+	if len(cw.frames) != 1 {
+		return ""
+	}
+	pc := cw.first
+	ck := &rawCsum{typ: pc.CsumType}
+	ck.add([]byte(method))
+	ck.add(arg2)
+	ck.add(arg3)
+	want := []byte{0}
+	want = append(want, rawCallReqHeader(pc.TTL, pc.Tracing, pc.Service, pc.Headers)...)
+	want = append(want, pc.CsumType)
+	want = append(want, ck.bytes()...)
+	want = append(want, str2(method)...)
+	want = append(want, str2(string(arg2))...)
+	want = append(want, str2(string(arg3))...)
+	if !bytes.Equal(rawFrameBytes(0x03, cw.id, want), cw.frames[0]) {
+		return fmt.Sprintf("unfragmented call req frame differs from the specification encoder: got %d bytes, want %d", len(cw.frames[0]), 16+len(want))
+	}
+	return ""
+}
+
+func wireExchange(res1 byte, service, method string, arg2, arg3, resArg2, resArg3 []byte, csum byte, maxPayload int) (string, *callWire) {
 	ln, err := net.Listen("tcp", "127.0.0.1:0")
 	if err != nil {
-		return "harness: listen: " + err.Error()
+		return "harness: listen: " + err.Error(), nil
 	}
 	defer ln.Close()
 	verdictCh := make(chan string, 1)
+	cwCh := make(chan *callWire, 1)
 	go func() {
 		conn, err := ln.Accept()
 		if err != nil {
@@ -92,6 +167,7 @@ func wireExchange(res1 byte, service, method string, arg2, arg3, resArg2, resArg
 			return
 		}
 		var frags []*rawCall
+		var rawFrames [][]byte
 		var id uint32
 		ck := &rawCsum{}
 		for {
@@ -140,6 +216,7 @@ func wireExchange(res1 byte, service, method string, arg2, arg3, resArg2, resArg
 				return
 			}
 			frags = append(frags, pc)
+			rawFrames = append(rawFrames, rawFrameBytes(f.Type, f.ID, f.Payload))
 			if pc.Flags&1 == 0 {
 				break
 			}
@@ -157,6 +234,7 @@ func wireExchange(res1 byte, service, method string, arg2, arg3, resArg2, resArg
 				return
 			}
 		}
+		cwCh <- &callWire{id: id, first: frags[0], frames: rawFrames}
 		verdictCh <- ""
 		// keep the connection open until the client is done
 		readRawFrame(conn, 500*time.Millisecond)
@@ -166,7 +244,7 @@ func wireExchange(res1 byte, service, method string, arg2, arg3, resArg2, resArg
 		DefaultConnectionOptions: tchannel.ConnectionOptions{FramePool: &dirtyPool{res1: res1}},
 	})
 	if err != nil {
-		return "harness: NewChannel: " + err.Error()
+		return "harness: NewChannel: " + err.Error(), nil
 	}
 	defer ch.Close()
 	ctx, cancel := tchannel.NewContext(5 * time.Second)
@@ -182,14 +260,19 @@ func wireExchange(res1 byte, service, method string, arg2, arg3, resArg2, resArg
 	case <-time.After(6 * time.Second):
 		v = "raw peer did not finish"
 	}
+	var cw *callWire
+	select {
+	case cw = <-cwCh:
+	default:
+	}
 	if v != "" {
-		return v
+		return v, cw
 	}
 	if err != nil {
-		return "client failed against a specification-conforming peer: " + err.Error()
+		return "client failed against a specification-conforming peer: " + err.Error(), cw
 	}
 	if !bytes.Equal(gotArg2, resArg2) || !bytes.Equal(gotArg3, resArg3) {
-		return "client decoded different response arguments than the specification-conforming peer sent"
+		return "client decoded different response arguments than the specification-conforming peer sent", cw
 	}
-	return ""
+	return "", cw
 }
